@@ -55,3 +55,6 @@ Definition judge_re2 (r1 r2 : re) : verdict := judge (renumber (re_fa r1)) (renu
 
 (* ---- C07: Python regular expressions ---- *)
 From PFL Require Export Model.PyRegex.
+
+(* the trim certificate used together with the uniqueness theorem of the minimal automaton *)
+From PFL Require Export Proofs.EnfaIso.
